@@ -1,5 +1,5 @@
 """C05 — Calendar business-day arithmetic agrees with day-by-day counting."""
-import datetime
+import datetime, signal, time
 from implutil import call
 
 ID = 'C05'
@@ -89,14 +89,33 @@ class Oracle:
         if y >= x: return sum(1 for d in range(x + 1, y + 1) if self.isb(d))
         return -sum(1 for d in range(y + 1, x + 1) if self.isb(d))
 
+class QueryTimeout(BaseException):
+    pass
+QUERY_TIMEOUT = 5.0
+def guarded(f, *a):
+    """call(f, *a) under a per-call watchdog (add / dt_bump contain unbounded loops): ('Timeout', None) when it does not return.
+    The worker's own per-case alarm is suspended and restored with the time that is left."""
+    old = signal.getsignal(signal.SIGALRM); left = signal.getitimer(signal.ITIMER_REAL)[0]; t0 = time.time()
+    def h(sig, frm): raise QueryTimeout()
+    signal.signal(signal.SIGALRM, h); signal.setitimer(signal.ITIMER_REAL, QUERY_TIMEOUT)
+    try:
+        return call(f, *a)
+    except QueryTimeout:
+        return 'Timeout', None
+    finally:
+        signal.setitimer(signal.ITIMER_REAL, 0); signal.signal(signal.SIGALRM, old)
+        if left > 0: signal.setitimer(signal.ITIMER_REAL, max(0.05, left - (time.time() - t0)))
+
 def impl_setup():
     global Calendar, calendar, calendars
     from pyg_base._drange import Calendar, calendar, calendars
 
+class NotADay(Exception):
+    pass
 def _ord(x):
     if isinstance(x, datetime.datetime) and x == datetime.datetime(x.year, x.month, x.day):
         return x.toordinal()
-    raise TypeError('not a midnight datetime: %r' % (x,))
+    raise NotADay('a Calendar method returned %r, which is not a day (datetime at midnight): business days are whole days' % (x,))
 
 class Runner:
     """runs the queries of one case on the real Calendar; collects observations and oracle violations"""
@@ -113,6 +132,8 @@ class Runner:
                 kw.update(t0=D(case['t0']), t1=D(case['t1']))
             cal = Calendar(key=None, **kw)
         self.cal = cal
+        if case.get('default_range'):
+            call(cal.clock, D(case['t0']))      # _populate of 146098 days, outside the per-call watchdog
         self.o = Oracle(case)
         self.viol = None
     def DT(self, d):
@@ -155,7 +176,7 @@ class Runner:
             st, s = call(self.cal.adjust, self.DT(d), a)
             if st == 'ok' and self.cal.is_holiday(s):
                 return 'OutOfFuel', None
-        st, r = call(self.cal.add, self.DT(d), n, a)
+        st, r = guarded(self.cal.add, self.DT(d), n, a)
         return (st, _ord(r)) if st == 'ok' else (st, None)
     def q_add(self, a, d, n, laws=True):
         st, r = self.add_raw(a, d, n)
@@ -231,11 +252,11 @@ class Runner:
             if n == 0:
                 st0, s0 = call(self.cal.adjust, c1, a)
                 if st0 == 'ok' and self.cal.is_holiday(s0): hang = True; break
-            st0, cur = call(self.cal.add, c1, n, a)
+            st0, cur = guarded(self.cal.add, c1, n, a)
             if st0 != 'ok': break
         if hang:
             return ['ERR', 'OutOfFuel']
-        st, r = call(self.cal.dt_bump, self.DT(d), text, a)
+        st, r = guarded(self.cal.dt_bump, self.DT(d), text, a)
         if st == 'ok': r = _ord(r)
         if exp is not None and (st != 'ok' or r != exp):
             self.bad('dt_bump(%s, %r, %r) = %s; counting business days token by token gives %s' % (D(d).date(), text, a, D(r).date() if st == 'ok' else st, D(exp).date()))
@@ -281,7 +302,10 @@ def impl_registry(case):
             if k not in last: last[k] = list(DEFAULT)
             reg = last[k]
             r = Runner({'t0': reg[2], 't1': reg[3], 'hol': reg[0], 'wk': reg[1], 'adj': 'm'}, cal=c)
-            obs.append(r.run(op[2]))
+            try:
+                obs.append(r.run(op[2]))
+            except NotADay as e:
+                return {'status': 'ok', 'obs': ['ERR', 'NotADay'], 'viol': viol or str(e)}
             if viol is None and r.viol:
                 viol = 'op #%d on calendar(%r) (last registered with holidays=%s): %s' % (i, key, reg[0] if len(reg[0]) <= 12 else '%d days' % len(reg[0]), r.viol)
             continue
@@ -316,7 +340,10 @@ def impl(case):
     if case['kind'] == 'reg':
         return impl_registry(case)
     r = Runner(case)
-    obs = [r.run(q) for q in case['q']]
+    try:
+        obs = [r.run(q) for q in case['q']]
+    except NotADay as e:
+        return {'status': 'ok', 'obs': ['ERR', 'NotADay'], 'viol': r.viol or '%s  [query dates carry the time of day %s]' % (e, r.tod)}
     return {'status': 'ok', 'obs': obs, 'viol': r.viol}
 
 # ------------------------------------------------------------------ Coq side
